@@ -460,12 +460,31 @@ func runMergeFaults(r *Run) {
 		}
 		done2 = true
 	})
-	r.Loop(func() bool { return done1 && done2 }, 30*time.Second)
+	// A third caller: a rejected Merge must not disturb the single-flight state of the one in
+	// flight, so a further call while A is still running is rejected as well.
+	var err3 error
+	done3, called3 := false, false
+	simrt.GoNamed("mergerC", func() {
+		simrt.Gate("op", "merge C", nil)
+		if inFlight && called2 {
+			called3 = true
+			_, err3 = ms.meng.Merge(WithTag(context.Background(), "merge-C"))
+		}
+		done3 = true
+	})
+	allDone := func() bool { return done1 && done2 && done3 }
+	r.Loop(allDone, 30*time.Second)
 	r.EnumActive = false
-	if !(done1 && done2) && !r.Budget {
-		r.FairDrain(func() bool { return done1 && done2 }, 5000, 20*time.Second)
+	if !allDone() && !r.Budget {
+		r.FairDrain(allDone, 5000, 20*time.Second)
 	}
-	if !(done1 && done2) || r.Budget {
+	if called3 {
+		r.Probe("merge.third-concurrent-call")
+		if !errors.Is(err3, bs.ErrMergeInProgress) {
+			r.Violate("C13", "concurrent-merge-not-rejected", "a third Merge, invoked after a second one had been rejected and while the first was still in progress, returned %v instead of ErrMergeInProgress", err3)
+		}
+	}
+	if !allDone() || r.Budget {
 		r.Budget = true
 		if !r.Teardown(nil) {
 			r.Dirty = true
@@ -806,7 +825,23 @@ func runMergeConcurrent(r *Run) {
 			}
 		}
 	}
+	// Bias: right after a MetaStore.Update has been applied (a flush or merge commit, or one half
+	// of one), let a query take its MetaStore snapshot half of the time — commits are rare events
+	// and a uniformly random schedule almost never lands a snapshot next to one.
+	r.Prefer = func(en []*simrt.Parked) *simrt.Parked {
+		if r.LastKind != "ms.update" || !r.S.Chance(500) {
+			return nil
+		}
+		for _, p := range en {
+			if p.Kind == "ms.iter" {
+				r.Probe("conc.snapshot-right-after-update")
+				return p
+			}
+		}
+		return nil
+	}
 	r.Loop(func() bool { r.mu.Lock(); defer r.mu.Unlock(); return fin == total }, 30*time.Second)
+	r.Prefer = nil
 	if !r.Budget {
 		r.FairDrain(func() bool { r.mu.Lock(); defer r.mu.Unlock(); return fin == total }, 20000, 20*time.Second)
 	}
